@@ -3,6 +3,7 @@ package lint
 import (
 	"fmt"
 	"go/token"
+	"os"
 	"strings"
 
 	"ikeverif/checker/xt/ssa"
@@ -204,6 +205,34 @@ func (c *Ctx) trailingSKRule(r *Report, prefix string) {
 	for _, li := range naturalLoops(fn) {
 		isLoopHeader[li.header] = true
 	}
+	// the element being encoded: container[idx] whose Marshal is invoked; "has a successor" and "is the last" are
+	// then facts about idx and len(container) that the dominating tests establish in whatever spelling
+	// ((index+1) < len(c), index < len(c)-1, index != last)
+	var idxLF, lenLF LF
+	haveIdx := false
+	for _, b := range fn.Blocks {
+		for _, ins := range b.Instrs {
+			call, ok := ins.(*ssa.Call)
+			if !ok || !call.Call.IsInvoke() || call.Call.Method.Name() != "Marshal" {
+				continue
+			}
+			if u, ok := call.Call.Value.(*ssa.UnOp); ok {
+				if ia, ok := u.X.(*ssa.IndexAddr); ok {
+					idxLF, lenLF, haveIdx = f.LFOf(ia.Index), f.SliceLen(ia.X), true
+				}
+			}
+		}
+	}
+	proves := func(g LF, at *ssa.BasicBlock) bool {
+		if !haveIdx {
+			return false
+		}
+		ok, _ := f.Prove(g, f.FactsAt(at))
+		if os.Getenv("IKELINT_DEBUG_CHAIN") != "" {
+			fmt.Fprintf(os.Stderr, "chain: prove %s at block %d from {%s}: %v\n", f.Show(g), at.Index, f.ShowFacts(f.FactsAt(at)), ok)
+		}
+		return ok
+	}
 	n := 0
 	for _, b := range fn.Blocks {
 		for _, ins := range b.Instrs {
@@ -269,6 +298,18 @@ func (c *Ctx) trailingSKRule(r *Report, prefix string) {
 						}
 					}
 				}
+				// the same through the numeric facts: idx + 2 <= len (a successor exists), idx + 1 >= len (the last)
+				if !hasNext && proves(lenLF.add(idxLF, -1).add(konst(2), -1), b) {
+					hasNext = true
+				}
+				if hasNext && haveIdx && !proves(lenLF.add(idxLF, -1).add(konst(2), -1), b) {
+					// the syntactic form matched a comparison that is not about this element
+					hasNext = false
+				}
+				isLast := !hasNext
+				if haveIdx {
+					isLast = proves(idxLF.add(konst(1), 1).add(lenLF, -1), b)
+				}
 				switch x := v.(type) {
 				case *ssa.Call:
 					// next.Type(): receiver = container[index+1]
@@ -277,7 +318,9 @@ func (c *Ctx) trailingSKRule(r *Report, prefix string) {
 						if u, ok := x.Call.Value.(*ssa.UnOp); ok {
 							if ia2, ok := u.X.(*ssa.IndexAddr); ok {
 								// index+1 relative to the loop index
-								_ = ia2
+								if haveIdx && f.LFOf(ia2.Index).add(idxLF, -1).key() != konst(1).key() {
+									okT = false
+								}
 							} else {
 								okT = false
 							}
@@ -286,7 +329,7 @@ func (c *Ctx) trailingSKRule(r *Report, prefix string) {
 					r.Check(okT, rule, key, c.InstrPos(st), "not last: Type() of the following element", "a generic header is given a next-payload value that is not the following payload's type")
 				case *ssa.UnOp:
 					_, fld, ok := fieldLoad(v)
-					okF := ok && fld == "NextPayload" && !hasNext
+					okF := ok && fld == "NextPayload" && !hasNext && isLast
 					// dominated by payload.Type() == TypeSK
 					okSK := false
 					for bb := b; bb != nil; bb = bb.Idom() {
@@ -307,7 +350,7 @@ func (c *Ctx) trailingSKRule(r *Report, prefix string) {
 					r.Check(okF && okSK, rule, key, c.InstrPos(st), "last and SK: the Encrypted payload's NextPayload field", "the trailing SK payload's generic header does not carry its NextPayload field")
 				case *ssa.Const:
 					kv, _ := constInt64(x.Value)
-					r.Check(kv == 0 && !hasNext, rule, key, c.InstrPos(st), "last and not SK: 0 (no next payload)", "a constant next-payload value other than 0, or 0 on a non-last payload")
+					r.Check(kv == 0 && !hasNext && isLast, rule, key, c.InstrPos(st), "last and not SK: 0 (no next payload)", "a constant next-payload value other than 0, or 0 on a non-last payload")
 				default:
 					r.bad(rule, key, c.InstrPos(st), "unrecognised next-payload value")
 				}
